@@ -98,22 +98,59 @@ def make_angle(spec):
     return mm.Angle(float(spec[0]), float(spec[1]), int(spec[2]))
 
 
-def do_far(m, far):
+def do_far(m, far, angles=None, positional=False):
+    """angles: optional dict used to reuse the caller's Angle objects
+    between requests (a caller may well keep them)."""
     zen, azi, pwr, dist = far
     kw = {}
     if pwr:
         kw['pwr'] = pwr
     if dist:
         kw['dist'] = dist
-    m.compute_far_field(make_angle(zen), make_angle(azi), **kw)
+    if angles is not None:
+        key = (tuple(zen), tuple(azi))
+        if key not in angles:
+            angles[key] = (make_angle(zen), make_angle(azi))
+        za, aa = angles[key]
+    else:
+        za, aa = make_angle(zen), make_angle(azi)
+    if positional:
+        m.compute_far_field(za, aa, pwr or None, dist or 0)
+    else:
+        m.compute_far_field(za, aa, **kw)
 
 
-def do_near(m, near):
+def do_near(m, near, keep=None, as_array=False):
+    """keep: optional dict; the same start/inc/count containers are then
+    handed in again on a repeated request (caller-owned, must not be
+    modified by the program)."""
     start, inc, cnt, pwr = near
     kw = {}
     if pwr:
         kw['pwr'] = pwr
-    m.compute_near_field(list(start), list(inc), list(cnt), **kw)
+    if keep is not None:
+        key = repr(near[:3])
+        if key not in keep:
+            if as_array:
+                keep[key] = (np.array(start, dtype=float), np.array(inc, dtype=float), np.array(cnt))
+            else:
+                keep[key] = (list(start), list(inc), list(cnt))
+        a, b, c = keep[key]
+        m.compute_near_field(a, b, c, **kw)
+    else:
+        m.compute_near_field(list(start), list(inc), list(cnt), **kw)
+
+
+def do_compute(m, stepwise=False):
+    if stepwise:
+        # what compute() does, spelled out by the caller
+        m.compute_impedance_matrix()
+        m.compute_impedance_matrix_loads()
+        m.compute_rhs()
+        m.compute_currents()
+        m.power = sum(s.power for s in m.sources)
+    else:
+        m.compute()
 
 
 def _arr(x):
@@ -197,10 +234,34 @@ def sections_basic(m, st, far, near, version):
     return {'txt.basic[%s]' % version: m.as_basic_input(ns, **kw)}
 
 
-def sections_misc(m, st):
+PIECES = ['frequency_as_mininec', 'environment_as_mininec', 'wires_as_mininec', 'sources_as_mininec',
+          'loads_as_mininec', 'header_as_mininec']
+PIECES_COMPUTED = ['source_data_as_mininec', 'currents_as_mininec']
+
+
+def sections_misc(m, st, order=0):
+    """Debugging aids and the individual report pieces, called directly in
+    a seeded order (a caller need not go through as_mininec)."""
+    import random as _r
     r = {'txt.geo_as_str': m.geo_as_str(), 'txt.str': '\n'.join(str(g) for g in m.geo)}
+    names = list(PIECES)
     if st.computed:
         r['txt.dump_matrix'] = m.dump_matrix()
+        names += PIECES_COMPUTED
+        r['txt.src.as_mininec'] = '\n'.join(s.as_mininec() for s in m.sources)
+        if st.far is not None:
+            names += ['far_field_as_mininec', 'far_field_absolute_as_mininec']
+            # options=None: the object's own print_opts (far field by default)
+            r['txt.as_mininec.default'] = m.as_mininec()
+            r['txt.ffp.db'] = m.far_field.db_as_mininec()
+            r['txt.ffp.abs'] = m.far_field.abs_gain_as_mininec()
+        if st.near is not None:
+            names += ['near_field_e_as_mininec', 'near_field_h_as_mininec', 'near_field_header_as_mininec']
+    _r.Random(order).shuffle(names)
+    for n in names:
+        r['txt.piece.' + n] = getattr(m, n)()
+    if m.media:
+        r['txt.media'] = '\n'.join(md.as_mininec() for md in m.media)
     return r
 
 
@@ -224,6 +285,8 @@ class ApiRuntime:
         self.pv = poison_value(env)
         self.nfreq_computed = set()
         self.order = []          # sequence of FAR/NEAR kinds executed
+        self.angles = {}         # caller-owned Angle objects reused between requests
+        self.nearargs = {}       # caller-owned near-field argument containers
         self.seen_points = {}
 
     def ensure(self):
@@ -278,7 +341,7 @@ class ApiRuntime:
                     S.fired('freq_revisit')
                 if st.computed:
                     S.fired('compute_repeat')
-                m.compute()
+                do_compute(m, stepwise=(len(op) > 1 and op[1] == 'steps'))
                 st.apply(op)
                 self.nfreq_computed.add(st.f)
             elif kind == 'FAR':
@@ -289,7 +352,9 @@ class ApiRuntime:
                 if st.near is not None:
                     S.fired('field_order')
                     info['probe'] = 'near_then_far'
-                do_far(m, t['fars'][op[1]])
+                var = op[2] if len(op) > 2 else ''
+                do_far(m, t['fars'][op[1]], angles=self.angles if 'r' in var else None,
+                       positional='p' in var)
                 st.apply(op)
             elif kind == 'NEAR':
                 if st.near is not None and st.near != op[1]:
@@ -299,7 +364,9 @@ class ApiRuntime:
                 if st.far is not None:
                     S.fired('field_order')
                     info['probe'] = 'far_then_near'
-                do_near(m, t['nears'][op[1]])
+                var = op[2] if len(op) > 2 else ''
+                do_near(m, t['nears'][op[1]], keep=self.nearargs if 'r' in var else None,
+                        as_array='a' in var)
                 st.apply(op)
             elif kind == 'OBS_NUM':
                 return True, sections_num(m, st), info
@@ -322,7 +389,7 @@ class ApiRuntime:
                 near = t['nears'][st.near] if st.near is not None else None
                 return True, sections_basic(m, st, far, near, op[1]), info
             elif kind == 'OBS_MISC':
-                return True, sections_misc(m, st), info
+                return True, sections_misc(m, st, op[1] if len(op) > 1 else 0), info
             else:
                 raise ValueError('unknown op %r' % (op,))
         except Exception as e:
@@ -389,7 +456,7 @@ def oracle_api(task, point, wanted):
                 near = task['nears'][neari] if neari is not None else None
                 out.update(sections_basic(m, st, far, near, w[1]))
             elif w[0] == 'misc':
-                out.update(sections_misc(m, st))
+                out.update(sections_misc(m, st, w[1] if len(w) > 1 else 0))
         except Exception as e:
             out['exc:%s' % w[0]] = type(e).__name__
     return out
@@ -440,7 +507,14 @@ def run_main(argv, disk, torn=None):
                 stderr=cap.err.getvalue() + err.getvalue(), files=files)
 
 
-def sweep_argv(base, inc, steps):
+def sweep_argv(base, inc, steps, style=0):
+    """The sweep options in one of the spellings the option parser accepts."""
+    if style == 1:
+        return list(base) + ['--f-inc', repr(inc), '--n-f', str(steps)]
+    if style == 2:
+        return ['--n-f=%d' % steps] + list(base) + ['--f-inc=%r' % inc]
+    if style == 3:
+        return list(base) + ['--frequency-steps', str(steps), '--frequency-increment', repr(inc)]
     return list(base) + ['--frequency-increment=%r' % inc, '--frequency-steps=%d' % steps]
 
 
@@ -596,7 +670,7 @@ def run_history(plan, start=0, disk_files=None, positions=None, apistates=None):
             elif kind == 'SWEEP':
                 if op[2] < 0:
                     probes['sweep_negative_increment'] = probes.get('sweep_negative_increment', 0) + 1
-                r = run_main(sweep_argv(op[1], op[2], op[3]), disk)
+                r = run_main(sweep_argv(op[1], op[2], op[3], op[4] if len(op) > 4 else 0), disk)
                 rec['sections'] = r
                 rec['fresh'] = not ran_model_code
                 S.fired('freq_history')
